@@ -150,10 +150,7 @@ Qed.
 Theorem transpose_wf rs a r : WF a -> transpose rs a = Ok r -> WF r.
 Proof.
   intros Hw H. unfold transpose in H. destruct rs as [|r0 t].
-  - destruct (List.length (axes a)) as [|[|[|n]]]; try discriminate.
-    + injection H as <-. exact Hw.
-    + eapply transpose_pos_wf; eassumption.
-    + eapply transpose_pos_wf; eassumption.
+  - eapply transpose_pos_wf; eassumption.
   - destruct (mapM _ _); simpl in H; [|discriminate]. eapply transpose_pos_wf; eassumption.
 Qed.
 Theorem swapaxes_wf r1 r2 a r : WF a -> swapaxes r1 r2 a = Ok r -> WF r.
